@@ -658,6 +658,8 @@ func (in *Interp) rpow(x, e *Term) *Term {
 	in.axiom(ts.Implies(ts.And(le(onec, x), le(zero, e)), le(onec, y)))
 	in.axiom(ts.Implies(ts.And(le(onec, x), le(onec, e)), le(x, y)))
 	in.axiom(ts.Implies(ts.And(le(zero, x), le(x, onec), le(onec, e)), le(y, x)))
+	in.axiom(ts.Implies(ts.And(le(onec, x), le(e, zero)), ts.And(lt(zero, y), le(y, onec))))
+	in.axiom(ts.Implies(ts.And(lt(zero, x), le(x, onec), le(e, zero)), le(onec, y)))
 	in.axiom(ts.Implies(ts.Eq(x, onec), ts.Eq(y, onec)))
 	in.axiom(ts.Implies(ts.Eq(e, zero), ts.Eq(y, onec)))
 	in.axiom(ts.Implies(ts.Eq(e, onec), ts.Eq(y, x)))
